@@ -47,7 +47,7 @@ def showBals (w : W) : String :=
     if b.isEmpty then none else some (a ++ "~" ++ showCoins b)) ++ "]"
 
 def kindStr : AcctKind → String
-  | .base => "base" | .cva => "cva" | .module => "module"
+  | .base => "base" | .cva => "cva" | .module => "module" | .dva => "dva"
 
 def showAcct (addr : String) (a : Acct) : String :=
   s!"{addr}~{kindStr a.kind}~{a.num}~{a.ident}~{showCoins (nz a.ov)}~{a.startS}~{a.endS}~{showCoins (nz a.dv)}~{showCoins (nz a.df)}"
@@ -128,6 +128,13 @@ def step (w : W) (toks : List String) : W × String :=
       let s := w.st
       ({ w with st := { s with accts := s.accts.set a { kind := .cva, num := s.nextNum, ident := "0/-", ov := ov, startS := ss, endS := es }, nextNum := s.nextNum + 1 } }, ".")
     | _, _, _ => (w, "bad-op")
+  | ["v.acct", a, "dva", ov, endS] =>
+    match parseCoins ov, int? endS with
+    | some ov, some es =>
+      let w := track w a
+      let s := w.st
+      ({ w with st := { s with accts := s.accts.set a { kind := .dva, num := s.nextNum, ident := "0/-", ov := ov, startS := 0, endS := es }, nextNum := s.nextNum + 1 } }, ".")
+    | _, _ => (w, "bad-op")
   | ["v.genpool", owner, name, vtype, ls, le, ini, wd, sent, gen] =>
     match int? ls, int? le, int? ini, int? wd, int? sent with
     | some ls, some le, some ini, some wd, some sent =>
